@@ -2,5 +2,5 @@ Require Import Base OasisInt GdsReal OasisReal.
 Require Import Extraction ExtrOcamlBasic.
 Extraction Blacklist List String Int.
 Extraction "../ocaml/extracted/c19_real.ml" gds_decode_dy gds_to_double_dy round53 gds_encode_with gds_encode_zero
-  ideal_exponent gds_exponent_allowed dbl_decompose swap16 swap32 swap64 bytes_le of_bytes_le N.size N.ltb N.leb
+  ideal_exponent gds_encode gds_in_range dbl_decompose swap16 swap32 swap64 bytes_le of_bytes_le N.size N.ltb N.leb
   enc_real dec_real dec_real_by_type dbl_finite.
